@@ -1,5 +1,5 @@
 /-
-  Helper lemmas for C01 (`lower_sound'`), part 3a: the unary operator steps on extended scalar forms
+  Helper lemmas for C01 (`lower_sound_ext`), part 3a: the unary operator steps on extended scalar forms
   (the same dispatch as Lemmas/LowerStep1.lean, with the derivative budget: the argument of an
   operator of order `ord1 o` must allow `ord1 o` more derivatives than the result).
 -/
